@@ -22,7 +22,7 @@ func (*c16Payload) Unmarshal([]byte) error  { return nil }
 
 type c16Chan struct {
 	lc   *localChannel
-	sent func(uint64)
+	sent func(uint64) error
 }
 
 func (a *c16Chan) Recv(ctx context.Context, h func(net.Message)) { a.lc.Recv(ctx, h) }
@@ -34,7 +34,9 @@ func (a *c16Chan) Send(ctx context.Context) error { return a.lc.Send(ctx, &c16Pa
 
 type c16Adapter struct{ key *operator.PublicKey }
 
-func (ad *c16Adapter) New(sent func(uint64)) c16common.Chan {
+func (ad *c16Adapter) CanFailPublish() bool { return false }
+
+func (ad *c16Adapter) New(sent func(uint64) error) c16common.Chan {
 	ticks := make(chan uint64)
 	lc := &localChannel{
 		name:                 "c16",
@@ -52,7 +54,7 @@ func (ad *c16Adapter) New(sent func(uint64)) c16common.Chan {
 	// observe published sequence numbers through a never-cancelled receiver
 	lc.Recv(tapCtx, func(m net.Message) {
 		if m.TransportSenderID().String() == "self" {
-			sent(m.Seqno())
+			_ = sent(m.Seqno())
 		}
 	})
 	return &c16Chan{lc, sent}
